@@ -820,6 +820,8 @@ fn chain_family() -> Vec<(ZoneSpec, Vec<String>)> {
 }
 
 fn main() {
+    // a stack overflow / abort in the code under test must become a verdict, not a dead check
+    vcore::supervise("C10");
     let ctx = Ctx::from_args("C10", "exploration");
     let thorough = !ctx.quick();
 
